@@ -94,7 +94,17 @@ P4 == [ n |-> 18, fns |-> {},
                    vcl_deliver |-> << I(<< A(16, FALSE, << S(17) >>) >>, <<>>) >>,
                    vcl_log     |-> << S(18) >> ] ]
 
-Programs == [ P1 |-> P1, P2 |-> P2, P3 |-> P3, P4 |-> P4 ]
+\* a call statement directly in the body of a functional subroutine (its own copy of the call-site code)
+P5 == [ n |-> 16, fns |-> {"f2"},
+        subs |-> [ vcl_recv    |-> << S(1), F(2, "f2"), C(3, "q1"), E(4) >>,
+                   f2          |-> << S(5), C(6, "q2"), S(7), V(8) >>,
+                   q1          |-> << S(9), F(10, "f2"), S(11) >>,
+                   q2          |-> << S(12), S(13) >>,
+                   vcl_error   |-> << S(14) >>,
+                   vcl_deliver |-> << S(15) >>,
+                   vcl_log     |-> << S(16) >> ] ]
+
+Programs == [ P1 |-> P1, P2 |-> P2, P3 |-> P3, P4 |-> P4, P5 |-> P5 ]
 
 VARIABLES prog, bps, top, stack, mode, hist, exec, mex, done
 vars == <<prog, bps, top, stack, mode, hist, exec, mex, done>>
